@@ -90,6 +90,6 @@ def check_hash(hash_, value):
     result = True
     regex = _HASH_REGEXES.get(hash_)
     if regex:
-        result = bool(regex.match(value))
+        result = bool(regex.fullmatch(value))
 
     return result
